@@ -78,6 +78,91 @@ def positions(src, rng, n):
     return pos[:n]
 
 
+# ---------------------------------------------------------------- Switch.tla: temporary switches and the memo
+SWCFG = """SPECIFICATION Spec
+CONSTANTS
+  V = {"y", "z"}
+  MaxQueries = %d
+  MemoKeyedOnSwitch = %s
+%s
+CHECK_DEADLOCK FALSE
+"""
+SWITCH_SRC = ("class A:\n    attr_y = 1\nclass B:\n    attr_y = 2\nclass C:\n    attr_z = 1\nclass D:\n    attr_z = 2\n"
+              "def f():\n    if 1:\n        x = A()\n    else:\n        x = B()\n    return x\n"
+              "def g():\n    if 1:\n        x = C()\n    else:\n        x = D()\n    return x\n"
+              "y = f()\nz = g()\ny.attr_y\nz.attr_z\ny\nz\n")
+SWITCH_POS = {'y': {'refs': (23, 3), 'infer': (25, 0)}, 'z': {'refs': (24, 3), 'infer': (26, 0)}}
+SWITCH_ON = {'y': ['A'], 'z': ['C']}
+SWITCH_OFF = {'y': ['A', 'B'], 'z': ['C', 'D']}
+
+
+def switch_history(hist):
+    """One history of Switch.tla on one real Script: -> [observed answer per query]."""
+    import jedi
+    s = jedi.Script(SWITCH_SRC, environment=jutil.env())
+    out = []
+    for st in hist:
+        v = st['v']
+        if st['q'] == 'infer':
+            names = sorted(set(d.name for d in s.infer(*SWITCH_POS[v]['infer'])))
+            out.append('on' if names == SWITCH_ON[v] else ('off' if names == SWITCH_OFF[v] else 'other:%s' % names))
+        else:
+            try:
+                if st['raised']:
+                    s.get_references(9999, 0)
+                else:
+                    s.get_references(*SWITCH_POS[v]['refs'])
+                out.append('none')
+            except ValueError:
+                out.append('none')
+        out[-1] = [out[-1], bool(s._inference_state.flow_analysis_enabled)]
+    return out
+
+
+def switch_leg(ctx):
+    def cfg(name, n, keyed, body):
+        p = os.path.join(ctx.tmp, name)
+        with open(p, 'w') as f:
+            f.write(SWCFG % (n, keyed, body))
+        return p
+    n = 3 if ctx.quick else 4
+    res = run_tlc('Switch', cfg('sw_rep.cfg', n, 'TRUE', 'INVARIANT SwitchRestored\nINVARIANT Repeatable'), workers=4, timeout=600)
+    ctx.add_tlc(res, 'temporary switch, repaired design (memo keyed on the switch): SwitchRestored, Repeatable')
+    if res.violated:
+        raise MachineryError('Switch.tla: the repaired design violates %s' % res.violated)
+    res = run_tlc('Switch', cfg('sw_coded.cfg', n, 'FALSE', 'INVARIANT SwitchRestored\nINVARIANT Repeatable'), workers=4, timeout=600)
+    ctx.add_tlc(res, 'temporary switch, design as coded: SwitchRestored, Repeatable')
+    if res.violated == 'SwitchRestored':
+        ctx.violation('design:SwitchRestored', 'Switch.tla violates SwitchRestored', {'trace': res.trace[-3:]})
+    elif res.violated == 'Repeatable':
+        ctx.violation('design:Repeatable:switch-memo', 'Switch.tla with the code\'s memo keys violates Repeatable: a value inferred '
+                      'while find_references had flow analysis switched off answers a later infer',
+                      {'history': [s_['action'] for s_ in res.trace]})
+    res = run_tlc('Switch', cfg('sw_emit.cfg', n, 'FALSE', 'CONSTRAINT Emit'), workers=1, timeout=600)
+    ctx.add_tlc(res, 'switch histories emission')
+    rows = cases(res)
+    if len(rows) < 100:
+        raise MachineryError('too few switch histories: %d' % len(rows))
+    obs = jutil.pmap(switch_history, [r['hist'] for r in rows], chunksize=8)
+    jutil.check_worker_errors(obs)
+    ctx.coverage['switch_histories_replayed'] = len(rows)
+    stale = 0
+    for r, o in zip(rows, obs):
+        for st, (got, sw) in zip(r['hist'], o):
+            if not sw:
+                ctx.violation('switch:not-restored', 'flow_analysis_enabled is False after a query', {'history': r['hist']})
+            if st['q'] != 'infer':
+                continue
+            if got != st['ans']:
+                ctx.drift({'switch_history': r['hist'], 'model': st['ans'], 'code': got})
+            if got != 'on':
+                stale += 1
+                ctx.violation('switch-memo:infer-after-refs' if got == 'off' else 'switch-memo:other',
+                              'infer on one Script after get_references answers differently from a fresh Script (%s)' % got,
+                              {'history': r['hist'], 'source': SWITCH_SRC})
+    ctx.coverage['switch_histories_stale_answers'] = stale
+
+
 def run(ctx):
     quick = ctx.quick
     rng = ctx.rng
@@ -159,6 +244,12 @@ def run(ctx):
     }
     for k, (src, qs) in multi.items():
         sources.append((k, src, None, qs, None))
+    # queries that run with a temporary switch (find_references turns flow analysis off) followed by queries that
+    # depend on the switch being on: the switch is restored, but is what was inferred meanwhile forgotten?
+    flowrefs = ("class A:\n    attr = 1\nclass B:\n    attr = 2\ndef f():\n    if 1:\n        x = A()\n    else:\n        x = B()\n"
+                "    return x\ny = f()\ny.attr\ny\n")
+    sources.append(('flowrefs:if-branches', flowrefs, None,
+                    [['get_references', 12, 3], ['infer', 13, 0], ['goto', 12, 3], ['infer', 12, 3], ['complete', 12, 2]], None))
     for f in jutil.corpus_files(limit=10 if quick else 40, rng=rng):
         with open(f, encoding='utf-8') as fh:
             src = fh.read()
@@ -184,6 +275,8 @@ def run(ctx):
                 hist = list(range(len(qs))) + [0, 1, 2]
                 if h > 0:
                     break
+            if name.startswith('flowrefs'):
+                hist = [[0, 1], [0, 3], [0, 2, 4, 1]][h % 3]
             if h == 0:
                 hist = hist + hist[:1]      # guarantees a repetition
             same_jobs.append({'src': src, 'path': path, 'mode': 'same', 'queries': [qs[i] for i in hist]})
@@ -316,4 +409,5 @@ def run(ctx):
     ctx.coverage['binding_selftest'] = 'conflicting observation rejected: %s' % bv[0]['why']
     ctx.assumptions += ['two results are the same iff name, type, line, column, module_path and description agree in order',
                         'hash seeds 0,1,2,random and 3-5 allocation perturbations stand for "every process"']
+    switch_leg(ctx)
     return None
